@@ -661,6 +661,11 @@ def View.slice (v : View α) (dim start step len : Nat) : View α :=
 def View.select (v : View α) (dim idx : Nat) : View α :=
   ⟨v.base, v.offset + idx * v.strides.getD dim 0, v.strides.eraseIdx dim, v.shape.eraseIdx dim⟩
 
+/-- `v.permute(p)` (`transpose`, `swapaxes`, `movedim`, `.mT` of the batch dimensions): strides and extents are permuted, nothing moves;
+the same shape rule as `Step.permute` -/
+def View.permute (v : View α) (p : List Nat) : View α :=
+  ⟨v.base, v.offset, p.map (fun a => v.strides.getD a 0), p.map (fun a => v.shape.getD a 0)⟩
+
 /-- stride rule of `expand` for equal rank: stride 0 where the extent 1 is expanded -/
 def expandStridesEq : Shape → List Nat → List Nat
   | n :: s, st :: sts => (if n = 1 then 0 else st) :: expandStridesEq s sts
